@@ -4,6 +4,8 @@ Base == [naming |-> "Num", rot |-> TRUE, gran |-> 1, clean |-> FALSE, k |-> 0, m
          cap |-> 0, append |-> FALSE]
 CfgsF == {[Base EXCEPT !.naming = n, !.cap = cp] : n \in {"Num", "NumD", "Ts", "TsD"}, cp \in {0, 16}}
          \cup {[Base EXCEPT !.rot = FALSE, !.size = -1, !.cap = cp] : cp \in {0, 16}}
+CfgsC == {[Base EXCEPT !.naming = n, !.clean = TRUE, !.k = km[1], !.m = km[2]] :
+              n \in {"Num", "NumD", "Ts", "TsD"}, km \in {<<1, 0>>, <<0, 1>>, <<1, 1>>}}
 LensF == {9, 12}
 LensQ == {12}
 NoReset == {}
